@@ -2,8 +2,8 @@ package symex
 
 import (
 	"fmt"
-	"os"
 	"math/big"
+	"os"
 	"runtime/debug"
 	"sort"
 	"strings"
